@@ -406,7 +406,7 @@ type ptx struct {
 }
 
 func selection(c *mon.Ctx) {
-	c.Cases("select", c.N(20000, 400000), func(k *mon.Case) {
+	c.Cases("select", c.N(20000, 150000), func(k *mon.Case) {
 		r := k.R
 		g, err := newRig(k, r, 10)
 		if err != nil {
@@ -620,6 +620,11 @@ func directed(c *mon.Ctx) {
 			lastSlot = slot
 			b := g.forgeOnce()
 			if b == nil {
+				continue
+			}
+			if g.n.Slot.GetSlotNumber(b.Header.Timestamp) != slot {
+				// forge() read the clock twice and the slot changed in between (loaded machine)
+				k.Inconclusive("clock-slip")
 				continue
 			}
 			g.applyForged(b)
